@@ -854,6 +854,9 @@ mod c19 {
         variant: u8,
         /// really bind and send (IPv4 only); otherwise only the decision functions are evaluated
         real: bool,
+        /// how long to wait for a datagram before the route counts as dropped (0 = 30 ms)
+        #[serde(default)]
+        wait_ms: u64,
     }
     #[derive(Serialize, Default)]
     struct RouteObs {
@@ -929,7 +932,40 @@ mod c19 {
         let mut listeners: BTreeMap<u8, UdpSocket> = BTreeMap::new();
         let mut port_to_bind: BTreeMap<u16, usize> = BTreeMap::new();
         if c.real {
-            match VerifSender::over(&specs, 1, &[2, 1, 2]) {
+            // The source port is what identifies the sending socket, so the local ports must be
+            // pairwise distinct.  Two sockets bound to *different* specific addresses with port 0
+            // can be given the same ephemeral port by the kernel (about 1 in 28 000 per pair; it
+            // happened once in a quick run and made socket 2's datagrams look like socket 1's):
+            // bind again until they differ (VH_C19_SAME_PORT=<p> forces the collision, self-test).
+            let forced: Option<u16> = std::env::var("VH_C19_SAME_PORT").ok().and_then(|p| p.parse().ok());
+            let mut bound = None;
+            for _attempt in 0..50 {
+                let specs_now: Vec<BindSpec> = match forced {
+                    Some(p) => specs.iter().map(|s| { let mut s = s.clone(); s.addr.set_port(p); s }).collect(),
+                    None => specs.clone(),
+                };
+                match VerifSender::over(&specs_now, 1, &[2, 1, 2]) {
+                    Ok(s) => {
+                        let mut ports: Vec<u16> = s.table().iter().map(|t| t.3.port()).collect();
+                        ports.sort_unstable();
+                        let n = ports.len();
+                        ports.dedup();
+                        if ports.len() == n {
+                            bound = Some(Ok(s));
+                            break;
+                        }
+                        bound = Some(Err(std::io::Error::other("bound sockets share a local port, the sender cannot be identified")));
+                        if forced.is_some() {
+                            break;
+                        }
+                    }
+                    Err(e) => {
+                        bound = Some(Err(e));
+                        break;
+                    }
+                }
+            }
+            match bound.expect("at least one attempt") {
                 Ok(s) => {
                     // map the real routing table back to bind indices (identical binds in stable order)
                     let mut used = vec![false; specs.len()];
@@ -992,7 +1028,7 @@ mod c19 {
                         Err(_) => "pending".into(),
                     };
                     // who received it, from which source port
-                    let deadline = Instant::now() + Duration::from_millis(30);
+                    let deadline = Instant::now() + Duration::from_millis(if c.wait_ms == 0 { 30 } else { c.wait_ms });
                     let mut got: Vec<(u8, u16)> = Vec::new();
                     loop {
                         for (d, l) in &listeners {
